@@ -2,7 +2,7 @@
 import ast
 
 from .astutil import (Guards, enum_paths, src, is_name, is_attr, yields_in, atoms, fact_in, assigned_names,
-                      exits_always, local_defs)
+                      exits_always, local_defs, path_feasible)
 from .fold import TT, NotConst
 from .model import AnalysisError, own_nodes, Cls
 
@@ -304,3 +304,34 @@ def check_driver_order(ctx, rid):
         ctx.ob(rid, key, loc, 'classification follows the reset of the previous statement, once, and its delta is added to self.level before the append', ok,
                '; '.join(why))
     ctx.need(n > 0, 'no path through the splitter loop')
+    # the end-of-statement decision reads the level AFTER this token's update (and after the reset of the previous statement)
+    for p in paths:
+        if not path_feasible(p) or p.exit not in ('fall', 'continue'):
+            continue
+        evs = [e for e in p.events if e[0] in ('stmt', 'test')]
+        sets = [i for i, e in enumerate(evs) if e[0] == 'stmt' and isinstance(e[1], ast.Assign) and any(is_attr(t, 'consume_ws', 'self') for t in e[1].targets)
+                and isinstance(e[1].value, ast.Constant) and e[1].value.value is True]
+        if not sets:
+            continue
+        upd = [i for i, e in enumerate(evs) if e[0] == 'stmt' and (
+            (isinstance(e[1], (ast.AugAssign, ast.Assign)) and any(is_attr(t, 'level', 'self') for t in (e[1].targets if isinstance(e[1], ast.Assign) else [e[1].target])))
+            or is_reset_call(e[1]))]
+        last_upd = max(upd) if upd else -1
+        # where is self.level read for the decision?  in a test that dominates the store, or in the definition of a name such a test uses
+        reads = []
+        for i, e in enumerate(evs[:sets[0]]):
+            if e[0] == 'test':
+                names = {n.id for n in ast.walk(e[1]) if isinstance(n, ast.Name)}
+                if any(is_attr(n, 'level', 'self') for n in ast.walk(e[1])):
+                    reads.append((i, e[1]))
+                for j, d in enumerate(evs[:i]):
+                    if d[0] == 'stmt' and isinstance(d[1], ast.Assign) and len(d[1].targets) == 1 and isinstance(d[1].targets[0], ast.Name) \
+                            and d[1].targets[0].id in names and any(is_attr(n, 'level', 'self') for n in ast.walk(d[1].value)):
+                        reads.append((j, d[1]))
+        early = [(i, x) for i, x in reads if i < last_upd]
+        desc = ' ∧ '.join(f'{"" if pol else "not "}({src(t)})' for t, pol in p.tests())[:160] or 'always'
+        ctx.ob(rid, f'decision[{desc}]', f'{f.mod.relpath}:{evs[sets[0]][1].lineno}',
+               'the end-of-statement test reads self.level after the reset of the previous statement and after this token\'s level update', not early,
+               f'`{src(early[0][1])[:70]}` is evaluated before `{src(evs[last_upd][1])[:50]}`: the ";" that starts right after a statement which ended at a '
+               'non-zero level (GO inside an open parenthesis or BEGIN block) is judged with the stale level and is not treated as a terminator'
+               if early else '')
